@@ -336,6 +336,19 @@ def shared_cmd(ctx):
         ob6.unknown("only %d command address sites found" % n)
 
 
+def res_counter(v, what):
+    """The reservation counter: the local register compared with w_buffer.level / buffer_depth in the command gate."""
+    cnts = set()
+    for l in v.leaves:
+        for t_ in ([l.value] if l.value is not None and isinstance(l.value, V) else []) + [c_ for c_, _ in l.guards]:
+            for st_ in subterms(t_):
+                if isinstance(st_, Op) and st_.op in (">", "<", "!=", "==") and len(st_.args) == 2 and any(key(a_) == what for a_ in st_.args):
+                    for a_ in st_.args:
+                        if isinstance(a_, Obj) and a_.cls == "Signal" and "." not in str(a_) and v.drivers(a_) and all(d.domain.startswith("sync") for d in v.drivers(a_)):
+                            cnts.add(a_)
+    return list(cnts)[0] if len(cnts) == 1 else None
+
+
 def rmw_and_ids(ctx):
     ob7 = ctx.ob("C09.7", "read-modify-write uses the write address beat only when it is valid: every transition out of the RMW idle state into a state "
                           "that drives port.cmd from aw.* is guarded by aw.valid (AXI allows W data before AW)", 1)
@@ -358,14 +371,50 @@ def rmw_and_ids(ctx):
                     ob7.refute("rmw-without-aw-valid", "the RMW sequence leaves %s for %s under %s, without aw.valid, and then issues native commands at "
                                "whatever aw.addr holds: with W data arriving before AW (legal AXI) memory is read and written at a wrong address" %
                                (idle, l.value.v, sorted(g)), l.loc)
-    gr = w.single_comb_def(Sym("rmw_wgrant"))
-    gk = litset(conj(gr)) if gr is not None else set()
-    ob8.instance("rmw_wgrant", sorted(gk))
-    if ob8.need(gr is not None, "rmw_wgrant definition not found"):
-        if not (gk & {"~w_buffer.level", "~w_buffer.source.valid", key(Op("==", (Sym("w_buffer.level"), Const(0))))}):
-            ob8.refute("rmw-grant-ignores-buffered-beats", "rmw_wgrant is %s: it only looks at the reservation counter (beats already commanded), not at the "
-                       "write buffer's occupancy, so a partial-strobe beat behind still-uncommanded full beats starts the RMW while aw points at an older "
-                       "beat: the read-modify-write merges the bytes of the wrong address" % sorted(gk), None)
+    # C09.8 on the transition itself (no signal name): the read-modify-write may start only when the write path is drained -
+    # (a) every commanded beat has left the buffer (the write reservation counter is 0 and no command is being queued), else the RMW read
+    #     overtakes older write data still sitting in the buffer and merges stale bytes;
+    # (b) the write buffer itself is empty (known finding F12).
+    if len(fs) == 1 and outs:
+        cnt = res_counter(w, "w_buffer.level")
+        if ob8.need(cnt is not None, "write reservation counter not identified"):
+            zero = {"~" + key(cnt), key(Op("==", (cnt, Const(0)))), key(Op("==", (Const(0), cnt)))}
+            for l in outs:
+                g = w.guard_keys(l)
+                ob8.instance("RMW %s -> %s (write-drain conditions)" % (idle, l.value.v), sorted(g))
+                if not (g & zero):
+                    ob8.refute("rmw-without-write-drain", "the RMW sequence leaves %s for %s under %s, which does not require the write reservation counter %s to be 0: "
+                               "the RMW read is issued while older write data (already commanded) is still in the write buffer, so the merge uses stale bytes and a "
+                               "back-to-back partial write to the same word loses the earlier bytes" % (idle, l.value.v, sorted(g), key(cnt)), l.loc)
+                    continue
+                if not any(k_.startswith("~(") and "port.cmd.ready" in k_ and "port.cmd.we" in k_ for k_ in g) and not any("port.cmd.ready" in k_ for k_ in g):
+                    ob8.refute("rmw-while-queueing", "the RMW sequence leaves %s under %s, which ignores a write command being accepted in this very cycle (its reservation is "
+                               "only counted one cycle later)" % (idle, sorted(g)), l.loc)
+                if not (g & {"~w_buffer.level", "~w_buffer.source.valid", key(Op("==", (Sym("w_buffer.level"), Const(0))))}):
+                    ob8.refute("rmw-grant-ignores-buffered-beats", "the RMW sequence is started under %s: it only looks at the reservation counter (beats already commanded), not at the "
+                               "write buffer's occupancy, so a partial-strobe beat behind still-uncommanded full beats starts the RMW while aw points at an older "
+                               "beat: the read-modify-write merges the bytes of the wrong address" % sorted(g), None)
+        # the read side: the grant the read half hands out requires ITS reservation counter to be 0, and the top level wires it to the write half
+        rv = rview(ctx, True)
+        rcnt = res_counter(rv, "buffer_depth")
+        tops = [k_ for k_ in ("rmw_rgrant",) if rv.drivers(k_)]
+        grants = [(k_, d_) for k_, ds_ in rv.defs.items() for d_ in ds_ if "." not in k_ and d_.kind == "assign" and d_.domain == "comb" and not d_.guards and rcnt is not None
+                  and isinstance(d_.value, V) and (litset(conj(d_.value)) & {"~" + key(rcnt), key(Op("==", (rcnt, Const(0))))})]
+        ob8.instance("read-side grant", [str(d_) for _, d_ in grants])
+        if ob8.need(rcnt is not None, "read reservation counter not identified"):
+            gnames = {k_ for k_, _ in grants}
+            wired = [l for l in elab(ctx, AXI, "LiteDRAMAXI2Native", kwargs={"axi": pobj("axi"), "port": pobj("port"), "with_read_modify_write": Const(True)}).leaves
+                     if l.kind == "assign" and l.inst == "" and isinstance(l.value, (Obj, Sym)) and str(l.value).split(".")[-1] in gnames and str(l.value).startswith("read.")]
+            ob8.instance("grant wiring", [str(l) for l in wired])
+            opaque = set()
+            for l in outs:
+                for a_, p_ in w.guard_lits(l):
+                    if p_ and isinstance(a_, Obj) and a_.cls == "Signal" and not w.drivers(a_):
+                        opaque.add(str(a_))
+            if not grants or not any(str(l.target).startswith("write.") and str(l.target).split(".")[-1] in opaque for l in wired):
+                ob8.refute("rmw-without-read-drain", "no grant requiring the read reservation counter %s == 0 reaches the RMW start condition (read-side grants %s, wired %s, undriven inputs in "
+                           "the start guard %s): the RMW read data would be mixed with data of older reads still in flight" %
+                           (key(rcnt), sorted(gnames), [str(l) for l in wired], sorted(opaque)), outs[0].loc)
     v = wview(ctx, False)
     rp = [d for d in v.drivers("resp_buffer.sink.valid") if is1(d.value)]
     if ob9.need(len(rp) == 1, "B response push not found"):
@@ -383,18 +432,9 @@ def capacity_and_forks(ctx):
     ob11 = ctx.ob("C09.11", "two-handshake states (command and data issued independently) leave only when BOTH are done: the exit is the AND over the two channels of "
                             "(handshake fires now | its own done flag), each done flag being set by that same handshake", 1)
     for v, nm, what in ((wview(ctx, False), "write", "w_buffer.level"), (rview(ctx, False), "read", "buffer_depth")):
-        # the counter: the local register compared with w_buffer.level / buffer_depth in the command gate
-        cnts = set()
-        for l in v.leaves:
-            for t_ in ([l.value] if l.value is not None and isinstance(l.value, V) else []) + [c_ for c_, _ in l.guards]:
-                for st_ in subterms(t_):
-                    if isinstance(st_, Op) and st_.op in (">", "<", "!=", "==") and len(st_.args) == 2 and any(key(a_) == what for a_ in st_.args):
-                        for a_ in st_.args:
-                            if isinstance(a_, Obj) and a_.cls == "Signal" and "." not in str(a_) and v.drivers(a_) and all(d.domain.startswith("sync") for d in v.drivers(a_)):
-                                cnts.add(a_)
-        if not ob10.need(len(cnts) == 1, "%s path: reservation counter not identified (%s)" % (nm, sorted(map(str, cnts)))):
+        c_ = res_counter(v, what)
+        if not ob10.need(c_ is not None, "%s path: reservation counter not identified" % nm):
             continue
-        c_ = list(cnts)[0]
         mx = c_.kwargs.get("max")
         ob10.instance("%s reservation counter %s" % (nm, c_), {"max": key(mx) if mx is not None else None, "bits": key(c_.args[0]) if c_.args else None})
         if mx is not None:
